@@ -501,7 +501,34 @@ func observationMutants() int {
 			try("heartbeat-prefixed signature presented as observation", cp(func(o *gossipv1.SignedObservation) {
 				o.Signature = sign(signer, hbPrefix, o.Hash)
 			}))
+			// the same for a digest the node has never heard of: a dropped observation must not leave an (empty)
+			// aggregation entry behind either
+			fresh := crypto.Keccak256([]byte("a digest nobody has observed"))
+			try("outsider's self-consistent observation of a digest the node has never seen", cp(func(o *gossipv1.SignedObservation) {
+				o.Hash, o.Addr, o.Signature = fresh, keys.Addr(outsider).Bytes(), keys.Sign(outsider, fresh)
+			}))
+			try("outsider claiming a member's address, digest the node has never seen", cp(func(o *gossipv1.SignedObservation) {
+				o.Hash, o.Addr, o.Signature = fresh, keys.Addr(1).Bytes(), keys.Sign(outsider, fresh)
+			}))
+			if after {
+				try("valid signature by a guardian dropped by the set change, digest the node has never seen", cp(func(o *gossipv1.SignedObservation) {
+					o.Hash, o.Signature = fresh, keys.Sign(signer, fresh)
+				}))
+			}
 			nd.Close()
+			if hist == "before" {
+				// before the first guardian set is known nobody is a guardian: every observation is dropped without trace
+				nd = w.NewNode(cfg.OwnKey, 50)
+				mk0 := mkNode
+				mkNode = func() *proch.Node { return w.NewNode(cfg.OwnKey, 50) }
+				before = nd.P.VerifSnapshot()
+				try("self-consistent observation before any guardian set is known", base)
+				try("outsider's observation before any guardian set is known", cp(func(o *gossipv1.SignedObservation) {
+					o.Hash, o.Addr, o.Signature = fresh, keys.Addr(outsider).Bytes(), keys.Sign(outsider, fresh)
+				}))
+				nd.Close()
+				mkNode = mk0
+			}
 		}
 	}
 	return n
